@@ -69,6 +69,12 @@ impl Definition {
             .any(|usage| span_contains(usage.span, tree, path, pos))
     }
 
+    pub fn contains_usage(&self, tree: &ParseTree, path: &Path, pos: LineCol) -> bool {
+        self.usages
+            .iter()
+            .any(|usage| span_contains(usage.span, tree, path, pos))
+    }
+
     pub fn try_get_usage_containing(
         &self,
         tree: &ParseTree,
@@ -193,7 +199,17 @@ impl Analysis {
         let path = path.into();
         self.definitions
             .iter()
-            .filter(|(ty, definition)| filter(ty) && definition.contains(&self.tree, &path, pos))
+            .filter(|(ty, definition)| {
+                filter(ty)
+                    && match ty {
+                        // The location of a file definition is the whole file: it is where an import leads to,
+                        // not an occurrence of a name (it would contain every position in that file)
+                        DefinitionType::Filename(_) => {
+                            definition.contains_usage(&self.tree, &path, pos)
+                        }
+                        DefinitionType::Symbol(_) => definition.contains(&self.tree, &path, pos),
+                    }
+            })
             .collect()
     }
 
